@@ -42,8 +42,8 @@ claim("C16", T + "provenance of release heights at every fund-freezing site, who
       "Decides that every site freezing funds computes block+GetUnbondPeriod / currentBlock+GetMovePeriod / gated DueBlock, that only BeginBlock releases frozen funds, only for its own height, crediting balances only without a move target and delegating only with one, that MoveStake is accepted only towards an existing candidate (found and repaired) and UnbondV3 only when not stake-locked. Not decided: numeric period values, what happens when the move target disappears before maturity (C07 finding).",
       TRUST, "DESIGN.md §4 C16")
 
-claim("C25", T + "must-hold lockset dataflow per function with caller-held summaries; guarded-by table over map fields shared between API-reachable and consensus-reachable code; re-acquisition and release-on-every-return rules",
-      "Decides that every map operation on a state/events map field shared between API readers and block execution holds the field's guard (found and repaired: swapPools, events store id tables), that no API-reachable path re-acquires a mutex block execution write-locks (found and repaired: GetLockStakeUntilBlock), that every acquisition is released on every normal return, that API code calls no mutator, that bulk loaders are called by the API only on private historic states, and that the node is wired through the serialising local ABCI client. Not decided: races on non-map fields, lock-order cycles, the order-book lists.",
+claim("C25", T + "must-hold lockset dataflow per function with caller-held summaries; guarded-by table over map fields shared between API-reachable and consensus-reachable code; re-acquisition and release-on-every-return rules; check-then-insert rule (deciding lookup under the insert's write lock); alias tracing of in-place big.Int operations in API code back to read methods that hand out stored amounts",
+      "Decides that every map operation on a state/events map field shared between API readers and block execution holds the field's guard (found and repaired: swapPools, events store id tables), that no API-reachable path re-acquires a mutex block execution write-locks (found and repaired: GetLockStakeUntilBlock), that every acquisition is released on every normal return, that a cached record is inserted only by a lookup-and-insert under one write lock wherever API and block execution can both load it (found and repaired: seven lazy loaders lost block execution's update to a racing query), that API code never does in-place arithmetic on an amount object owned by the state, that API code calls no mutator, that bulk loaders are called by the API only on private historic states, and that the node is wired through the serialising local ABCI client. Not decided: races on non-map fields, lock-order cycles, the order-book lists.",
       TRUST + "Guard table confirmed by reading; Tendermint's local client serialises ABCI calls.", "DESIGN.md §4 C25")
 
 claim("C05", T + "provenance of the account argument of every debit-like mutator; interprocedural gate facts per handler against a table of required ownership gates; gate inventory of the multisig arm of RunTx",
